@@ -1,6 +1,173 @@
-// Contract harnesses for ntp-proto/src/algorithm/kalman/select.rs (child module: sees private items).
-#![allow(unused_imports)]
+// Contract harnesses for ntp-proto/src/algorithm/kalman/select.rs (C03: majority consensus).
+#![allow(unused_imports, dead_code)]
 use super::*;
+use crate::algorithm::kalman::matrix::{Matrix, Vector};
+use crate::algorithm::kalman::source::KalmanState;
+use crate::packet::NtpLeapIndicator;
+use crate::time_types::{NtpDuration, NtpTimestamp};
+use crate::ClockId;
+use std::sync::atomic::{AtomicU64, Ordering::Relaxed};
+
+// offset_uncertainty() = sqrt(variance) as an uninterpreted, per-source deterministic value
+// (memo keyed by the snapshot's index); its non-negativity is the only fact used.
+static UNC: [AtomicU64; 3] = [AtomicU64::new(0), AtomicU64::new(0), AtomicU64::new(0)];
+fn offset_uncertainty_uf(s: &SourceSnapshot) -> f64 {
+    f64::from_bits(UNC[(s.index.0 % 3) as usize].load(Relaxed))
+}
+
+fn leap_from(c: u8) -> NtpLeapIndicator {
+    match c {
+        0 => NtpLeapIndicator::NoWarning,
+        1 => NtpLeapIndicator::Leap61,
+        2 => NtpLeapIndicator::Leap59,
+        3 => NtpLeapIndicator::Unknown,
+        _ => NtpLeapIndicator::Unsynchronized,
+    }
+}
+
+struct Cand {
+    snap: SourceSnapshot,
+    lo: f64,
+    hi: f64,
+    eligible: bool,
+    acceptable: bool,
+}
+
+fn any_candidate(i: u64, ac: &AlgorithmConfig) -> Cand {
+    let offset: f64 = kani::any();
+    let unc: f64 = kani::any();
+    let delay: f64 = kani::any();
+    kani::assume(offset.is_finite() && unc.is_finite() && unc >= 0.0 && delay.is_finite() && delay >= 0.0);
+    UNC[i as usize].store(unc.to_bits(), Relaxed);
+    let period = if kani::any() { Some(kani::any::<f64>()) } else { None };
+    let leap = leap_from(kani::any::<u8>() % 5);
+    let snap = SourceSnapshot {
+        index: ClockId(i),
+        state: KalmanState {
+            state: Vector::new_vector([offset, 0.0]),
+            uncertainty: Matrix::new([[0.0, 0.0], [0.0, 0.0]]),
+            time: NtpTimestamp::default(),
+        },
+        wander: 0.0,
+        delay,
+        period,
+        source_uncertainty: NtpDuration::ZERO,
+        source_delay: NtpDuration::ZERO,
+        leap_indicator: leap,
+        last_update: NtpTimestamp::default(),
+    };
+    // the confidence interval, as the statement's "uncertainty is acceptable / intervals" define it
+    let radius = unc * ac.range_statistical_weight + delay * ac.range_delay_weight;
+    kani::assume(radius.is_finite());
+    let acceptable = radius <= ac.maximum_source_uncertainty && leap.is_synchronized();
+    Cand { snap, lo: offset - radius, hi: offset + radius, eligible: acceptable && period.is_none(), acceptable }
+}
+
+fn any_configs() -> (SynchronizationConfig, AlgorithmConfig) {
+    let sc = SynchronizationConfig { minimum_agreeing_sources: kani::any(), ..Default::default() };
+    let ws: f64 = kani::any();
+    let wd: f64 = kani::any();
+    let mx: f64 = kani::any();
+    kani::assume(ws.is_finite() && ws >= 0.0 && wd.is_finite() && wd >= 0.0 && !mx.is_nan());
+    let ac = AlgorithmConfig {
+        range_statistical_weight: ws,
+        range_delay_weight: wd,
+        maximum_source_uncertainty: mx,
+        ..Default::default()
+    };
+    (sc, ac)
+}
+
+/// a subset (bitmask) of the candidates is a witness of consensus
+fn good(mask: u8, c: &[Cand], min: usize, eligible_total: usize) -> bool {
+    let mut size = 0usize;
+    let mut lo = f64::NEG_INFINITY;
+    let mut hi = f64::INFINITY;
+    let mut i = 0;
+    while i < c.len() {
+        if mask & (1 << i) != 0 {
+            if !c[i].eligible {
+                return false;
+            }
+            size += 1;
+            if c[i].lo > lo {
+                lo = c[i].lo;
+            }
+            if c[i].hi < hi {
+                hi = c[i].hi;
+            }
+        }
+        i += 1;
+    }
+    size >= 1 && size >= min && 2 * size > eligible_total && lo <= hi
+}
+
+fn check_select(c: &[Cand], sc: &SynchronizationConfig, ac: &AlgorithmConfig) {
+    let snaps: Vec<SourceSnapshot> = c.iter().map(|x| x.snap).collect();
+    let result = select(sc, ac, &snaps);
+    let mut eligible_total = 0usize;
+    for x in c.iter() {
+        if x.eligible {
+            eligible_total += 1;
+        }
+    }
+    // every returned source is one of the candidates and is synchronised and acceptably certain
+    for r in result.iter() {
+        let k = r.index.0 as usize;
+        assert!(k < c.len());
+        assert!(c[k].acceptable);
+    }
+    assert!(result.len() <= c.len());
+    // a non-empty result needs a strict-majority, large-enough set of eligible sources sharing a point
+    if !result.is_empty() {
+        let mut witness = false;
+        let mut mask: u8 = 1;
+        while (mask as usize) < (1usize << c.len()) {
+            if good(mask, c, sc.minimum_agreeing_sources, eligible_total) {
+                witness = true;
+            }
+            mask += 1;
+        }
+        assert!(witness);
+    }
+}
+
+/// bounded: 2 candidates, all fields symbolic
+#[kani::proof]
+#[kani::stub(super::super::SourceSnapshot::offset_uncertainty, offset_uncertainty_uf)]
+#[kani::unwind(7)]
+fn c03_b_select_consensus_two_candidates() {
+    let (sc, ac) = any_configs();
+    let c = [any_candidate(0, &ac), any_candidate(1, &ac)];
+    check_select(&c, &sc, &ac);
+    kani::cover!(c[0].eligible && c[1].eligible && c[0].hi < c[1].lo, "disagreeing pair reachable");
+    kani::cover!(c[0].eligible && c[1].eligible && c[0].hi >= c[1].lo && c[1].hi >= c[0].lo, "agreeing pair reachable");
+}
+
+/// bounded: 3 candidates (thorough tier)
+#[kani::proof]
+#[kani::stub(super::super::SourceSnapshot::offset_uncertainty, offset_uncertainty_uf)]
+#[kani::unwind(10)]
+fn c03_tb_select_consensus_three_candidates() {
+    let (sc, ac) = any_configs();
+    let c = [any_candidate(0, &ac), any_candidate(1, &ac), any_candidate(2, &ac)];
+    check_select(&c, &sc, &ac);
+    kani::cover!(c[0].eligible && c[1].eligible && c[2].eligible, "three eligible reachable");
+}
+
+/// canary: claims a single eligible source out of two eligible ones is enough -- must be refuted
+#[kani::proof]
+#[kani::stub(super::super::SourceSnapshot::offset_uncertainty, offset_uncertainty_uf)]
+#[kani::unwind(7)]
+fn c03_canary_select_needs_no_majority() {
+    let (sc, ac) = any_configs();
+    let c = [any_candidate(0, &ac), any_candidate(1, &ac)];
+    let snaps: Vec<SourceSnapshot> = c.iter().map(|x| x.snap).collect();
+    kani::assume(c[0].eligible && c[1].eligible && c[0].hi >= c[1].lo && c[1].hi >= c[0].lo);
+    kani::assume(sc.minimum_agreeing_sources <= 2);
+    let result = select(&sc, &ac, &snaps);
+    assert!(result.is_empty());
+}
 
 #[cfg(all(kani, test))]
 mod replay {
